@@ -11,7 +11,7 @@ C->S (events recorded from the code in /repo, every expected value computed by T
                   feeder chunkings = every chunking TLC enumerated in MC_Feeder (S->C) + random byte-granular ones
   Trace_Adapter   create_AES128 histories on shared / separate objects, pad, unregistered base class
 The harness holds no model: it generates inputs, calls the real code / openssl and logs."""
-import os, shutil, subprocess, concurrent.futures as cf
+import os, json, shutil, subprocess, concurrent.futures as cf
 
 from ..common import SPEC, Scratch, rng, MachineryError
 from ..report import Report
@@ -301,18 +301,16 @@ def record_feeders(rec, r, tier, shapes):
     aes, bf, _ = _real()
     n0 = rec.grp
     # S->C: every chunking TLC enumerated in MC_Feeder; one abstract cell = 8 bytes (2 cells = one AES block)
+    per_shape = 6 if tier == "thorough" else 1
     for k, (L, sizes) in enumerate(shapes):
-        if tier == "thorough":
-            todo = FEEDER_CFGS
-        else:
-            todo = [FEEDER_CFGS[(k * 5 + 3 * j) % len(FEEDER_CFGS)] for j in range(2)]
-        for (mode, seg, d, p) in todo:
-            if mode == "cfb" and seg == 1 and tier != "thorough" and L > 7:
-                mode, seg = "cfb", 16                                # keep the quick tier cheap: long streams byte by byte only in thorough
-            drive_feeder(rec, r, aes, bf, mode, seg, d, p, 8 * L, [8 * s for s in sizes], valid=(k % 3 != 0), post=(k % 7 == 0))
+        for j in range(per_shape):
+            mode, seg, d, p = FEEDER_CFGS[(k * per_shape + j * 11 + k // 28) % len(FEEDER_CFGS)]
+            if mode == "cfb" and tier != "thorough" and ((seg == 1 and L > 4) or (seg == 3 and L > 7)):
+                seg = 16                                             # quick tier: long streams byte by byte only in thorough
+            drive_feeder(rec, r, aes, bf, mode, seg, d, p, 8 * L, [8 * s for s in sizes], valid=((k + j) % 3 != 0), post=((k + j) % 7 == 0))
     n_sc = rec.grp - n0
     # random byte-granular chunkings: 0..5 blocks + 0..15 residual, <= 4 chunks (and some longer / finer ones)
-    for j in range(3000 if tier == "thorough" else 300):
+    for j in range(3000 if tier == "thorough" else 224):
         mode, seg, d, p = FEEDER_CFGS[j % len(FEEDER_CFGS)]
         if mode == "cfb" and seg == 3 and j % 2:
             seg = r.choice([2, 5, 7, 8, 13])
@@ -370,14 +368,14 @@ def record_adapter(rec, r, tier):
                     enc2 = o2.encrypt(d)
                 except Exception as ex:                            # noqa
                     rec.add({"op": "ad.call", "key": list(key), "iv": list(iv or b""), "fn": "encrypt", "data": list(d), "out": [], "err": 1,
-                             "cls": type(ex).__name__, "hist": -1, "pos": 0, "shared": shared})
+                             "cls": type(ex).__name__, "hist": -1, "pos": 0, "shared": shared, "obj": 0})
                     continue
                 rec.add({"op": "ad.rt", "key": list(key), "iv": list(iv or b""), "data": list(d), "enc": list(enc), "dec": list(dec),
                          "kind": kind, "shared": shared}, cost=2 * blocks(L) + 2)
                 rec.add({"op": "ad.call", "key": list(key), "iv": list(iv or b""), "fn": "mac", "data": list(d), "out": list(mac), "err": 0, "cls": "",
-                         "hist": -1, "pos": 2, "shared": shared}, cost=blocks(L) + 2)
+                         "hist": -1, "pos": 2, "shared": shared, "obj": 0}, cost=blocks(L) + 2)
                 rec.add({"op": "ad.call", "key": list(key), "iv": list(iv or b""), "fn": "encrypt", "data": list(d), "out": list(enc2), "err": 0, "cls": "",
-                         "hist": -1, "pos": 3, "shared": shared}, cost=blocks(L) + 2)
+                         "hist": -1, "pos": 3, "shared": shared, "obj": 1 - shared}, cost=blocks(L) + 2)
     # histories: two objects (equal parameters / same key other iv / unrelated), interleaved calls, recurring data
     for h in range(1500 if tier == "thorough" else 120):
         k1, iv1 = rb(r, 16), r.choice([None, bytes(16), rb(r, 16)])
@@ -395,7 +393,7 @@ def record_adapter(rec, r, tier):
                 d = r.choice(src) if src and r.random() < 0.7 else rb(r, 16 * r.randint(1, 4))
             else:
                 d = r.choice(pool)
-            out = call(objs[i], params[i][0], params[i][1], fn, d, hist=h, pos=pos, shared=int(variant == 0))
+            out = call(objs[i], params[i][0], params[i][1], fn, d, hist=h, pos=pos, shared=int(variant == 0), obj=i)
             if fn == "encrypt" and out:
                 encs[i].append(bytes(out))
     # pad
@@ -435,7 +433,7 @@ def run(tier):
     thorough = tier == "thorough"
     r = rng("c16")
     S = lambda n: os.path.join(SPEC, n)
-    with Scratch("c16") as wd, cf.ThreadPoolExecutor(max_workers=6 if thorough else 5) as mcpool, cf.ThreadPoolExecutor(max_workers=8) as iopool:
+    with Scratch("c16") as wd, cf.ThreadPoolExecutor(max_workers=5 if thorough else 4) as mcpool, cf.ThreadPoolExecutor(max_workers=8) as iopool:
         sub = lambda n: os.path.join(wd, n)
         # ---- S->C source: TLC enumerates every complete chunking of MC_Feeder (one mode is enough: the shapes do not depend on it)
         gen = tlc.require_ok(tlc.run(S("MC_Feeder.tla"), feeder_cfg(2, gen=True, modesel='{"cbc"}'), sub("gen"), workers=1, timeout=300), "MC_Feeder (GEN)")
@@ -444,13 +442,10 @@ def run(tier):
             raise MachineryError("TLC printed only %d chunkings" % len(shapes))
         # ---- MC jobs (background)
         W = 6 if thorough else 4
-        jobs = {
-            "MC_AESTables (14 literal tables and rcon = GF(2^8) definitions, 256 entries each)": (S("MC_AESTables.tla"), TRIV, 1),
-            "MC_AESVectors (FIPS-197 App. B/C, SP 800-38A CBC; decrypt inverts encrypt)": (S("MC_AESVectors.tla"), TRIV, 1),
-            "MC_AESModesVectors (SP 800-38A App. F, AES-128: ECB CBC CFB8 CFB128 OFB CTR; whole functions and mode objects)": (S("MC_AESModesVectors.tla"), TRIV, 1),
-            "MC_AESModes BLK=2": (S("MC_AESModes.tla"), modes_cfg(2, 4, 8, True) if thorough else modes_cfg(2, 3, 6), W),
-            "MC_Feeder BLK=2 (0..5 blocks + residual, <= 4 chunks)": (S("MC_Feeder.tla"), feeder_cfg(2), W),
+        jobs = {                                                    # heavy ones first
             "MC_Adapter BLK=2 (<= 4 calls, 2 objects)": (S("MC_Adapter.tla"), adapter_cfg(2), W),
+            "MC_Feeder BLK=2 (0..5 blocks + residual, <= 4 chunks)": (S("MC_Feeder.tla"), feeder_cfg(2), W),
+            "MC_AESModes BLK=2": (S("MC_AESModes.tla"), modes_cfg(2, 3, 8, True) if thorough else modes_cfg(2, 2, 6), W),
         }
         if thorough:
             jobs["MC_AESModes BLK=3 (segment sizes 1..3)"] = (S("MC_AESModes.tla"), modes_cfg(3, 2, 10), W)
@@ -458,6 +453,11 @@ def run(tier):
             jobs["MC_Adapter BLK=3"] = (S("MC_Adapter.tla"), adapter_cfg(3), W)
         else:
             jobs["MC_Feeder BLK=3 (segment sizes 1..3; 0..3 blocks)"] = (S("MC_Feeder.tla"), feeder_cfg(3, maxblocks=3), W)
+        jobs.update({
+            "MC_AESTables (14 literal tables and rcon = GF(2^8) definitions, 256 entries each)": (S("MC_AESTables.tla"), TRIV, 1),
+            "MC_AESVectors (FIPS-197 App. B/C, SP 800-38A CBC; decrypt inverts encrypt)": (S("MC_AESVectors.tla"), TRIV, 1),
+            "MC_AESModesVectors (SP 800-38A App. F, AES-128: ECB CBC CFB8 CFB128 OFB CTR; whole functions and mode objects)": (S("MC_AESModesVectors.tla"), TRIV, 1),
+        })
         selftests = {
             "MC_AESModes WRONG=ctr-nocarry": (S("MC_AESModes.tla"), modes_cfg(2, 2, 5, wrong="ctr-nocarry"), "ChunkingIndependent"),
             "MC_AESModes WRONG=cbc-dec-chains-plaintext": (S("MC_AESModes.tla"), modes_cfg(2, 2, 5, wrong="cbc-dec-chains-plaintext"), "ChunkingIndependent"),
@@ -475,11 +475,12 @@ def run(tier):
 
         # ---- record events from the real code
         rc, rm, ra = Rec(), Rec(), Rec()
-        n_oblk = record_cipher(rc, rep, r, tier, iopool)
+        record_cipher(rc, rep, r, tier, iopool)
         oracle_jobs = []
         record_modes(rm, r, tier, oracle_jobs)
         n_mode_groups = rm.grp
         n_sc = record_feeders(rm, r, tier, shapes)
+        n_feeders = rm.grp - n_mode_groups
         record_adapter(ra, r, tier)
         # whole streams through OpenSSL
         oouts = list(iopool.map(lambda j: ossl(j[1], j[2], j[3], j[4], decrypt=(j[5] == "dec")), oracle_jobs))
@@ -545,13 +546,17 @@ def run(tier):
 
         rm_events = [e for g in sorted(order) for e in order[g]]
         # ---- trace validation (TLC computes every expected value), the three specs side by side
-        sh = 16 if thorough else 12
+        sh = 16 if thorough else 8
         tfuts = {
             "aes": iopool.submit(tlc.validate_trace, S("Trace_AES.tla"), TRIV, rc.evs, sub("t_aes"), shards=sh, timeout=3000),
-            "modes": iopool.submit(tlc.validate_trace, S("Trace_AESModes.tla"), TRIV, rm_events, sub("t_modes"), shards=16, timeout=3000, by="grp"),
-            "adapter": iopool.submit(tlc.validate_trace, S("Trace_Adapter.tla"), TRIV, ra.evs, sub("t_ad"), shards=8 if thorough else 4, timeout=3000),
+            "modes": iopool.submit(tlc.validate_trace, S("Trace_AESModes.tla"), TRIV, rm_events, sub("t_modes"), shards=16 if thorough else 12, timeout=3000, by="grp"),
+            "adapter": iopool.submit(tlc.validate_trace, S("Trace_Adapter.tla"), TRIV, ra.evs, sub("t_ad"), shards=8 if thorough else 3, timeout=3000),
         }
         res = {k: f.result() for k, f in tfuts.items()}
+        for k in res:
+            st = dict(res[k][1])
+            st["events_in_tlc_run"] = st.pop("events")
+            res[k] = (res[k][0], st)
 
         # ---- judge
         for tag, rec in (("aes", rc), ("modes", rm), ("adapter", ra)):
@@ -568,7 +573,14 @@ def run(tier):
                 e = {k: v for k, v in byid[tid].items() if not k.startswith("_")}
                 if e.get("tag") == "canary":
                     continue
-                rep.violation(_key(clause, e), "%s event rejected by the specification: %s" % (e["op"], clause), e)
+                data = {"trace_spec": {"aes": "Trace_AES", "modes": "Trace_AESModes", "adapter": "Trace_Adapter"}[tag], "clause": clause, "event": e}
+                if e["op"] == "ad.call" and e.get("hist", -1) >= 0:  # the history on the two objects up to and including the call
+                    data["group"] = [{k: v for k, v in x.items() if not k.startswith("_")} for x in rec.evs
+                                     if x["op"] == "ad.call" and x.get("hist") == e["hist"] and x["tid"] <= tid]
+                if "grp" in e:                                       # stateful: the whole life of the object up to and including the event
+                    data["group"] = [{k: v for k, v in x.items() if not k.startswith("_")} for x in order[e["grp"]] if x["tid"] <= tid]
+                rep.violation(_key(clause, e), "%s event rejected by the specification: %s%s" % (
+                    e["op"], clause, " (%s raised)" % e["cls"] if e.get("cls") else ""), data)
             for (rid, tid), want in canaries.items():
                 if rid == id(rec) and tid not in seen:
                     raise MachineryError("binding self-test: corrupted %s event (%s) was accepted by the trace spec" % (tag, want))
@@ -594,7 +606,7 @@ def run(tier):
                              "rejected-size calls": count(rm, lambda e: e["op"] == "m.call" and e["err"] == 1)})
         rep.add_trace("Trace_AESModes oracle (whole streams vs openssl enc -aes-N-{ecb,cbc,cfb,cfb8,ofb,ctr} -nopad)", {}, n_mo, spec_computed=False)
         rep.add_trace("Trace_AESModes feeders (Encrypter/Decrypter.feed replayed; whole stream vs FeederSpec)", {}, n_f,
-                      extra={"feeders": rm.grp - n_mode_groups, "S->C: feeders driven with a chunking enumerated by TLC": n_sc,
+                      extra={"feeders": n_feeders, "S->C: feeders driven with a chunking enumerated by TLC": n_sc,
                              "TLC chunkings (all of MC_Feeder BLK=2)": len(shapes), "configurations": len(FEEDER_CFGS),
                              "error outcomes": count(rm, lambda e: e["op"] == "f.end" and e["err"] == 1)})
         st = res["adapter"][1]
@@ -631,3 +643,97 @@ def run(tier):
         "adapter domain: data length >= 1, decrypt input a positive multiple of 16 bytes, 16-byte keys",
     ]
     return rep
+
+
+# ------------------------------------------------------------------------------------------------ replay of a reported violation
+def _redo(evs):
+    """Re-execute the recorded calls on the code in /repo now; returns fresh events with the same inputs."""
+    aes, bf, bc = _real()
+    out, obj, acc, objs = [], None, None, {}
+    for e in evs:
+        n, op = dict(e), e["op"]
+        if op == "tab":
+            w = getattr(aes.AES, e["name"])[e["x"]]
+            n["v"] = list(w.to_bytes(4, "big")) if e["name"][0] in "TU" else [w]
+        elif op == "tablen":
+            n["n"] = len(getattr(aes.AES, e["name"]))
+        elif op == "blk":
+            n["ct"] = list(aes.AES(bytes(e["key"])).encrypt(bytes(e["pt"])))
+            n["dt"] = list(aes.AES(bytes(e["key"])).decrypt(n["ct"]))
+        elif op == "dblk":
+            n["pt"] = list(aes.AES(bytes(e["key"])).decrypt(bytes(e["ct"])))
+        elif op == "oblk":
+            n["ct"] = list(ossl("aes-%d-ecb" % (8 * len(e["key"])), bytes(e["key"]), None, bytes(e["pt"])))
+        elif op in ("m.new", "f.new"):
+            cfg = e
+            obj = mk_mode(aes, e["mode"], bytes(e["key"]), bytes(e["iv"]), e["seg"], none_iv=e.get("tag", "").endswith("-iv-none"))
+            if op == "f.new":
+                obj = (bf.Encrypter if e["dir"] == "enc" else bf.Decrypter)(obj, padding=e["pad"])
+            acc = [b"", b"", 0]
+        elif op in ("m.call", "f.feed"):
+            try:
+                if op == "m.call":
+                    o = (obj.encrypt if e["dir"] == "enc" else obj.decrypt)(bytes(e["data"]))
+                else:
+                    o = obj.feed(None if e["fin"] else bytes(e["data"]))
+                n["out"], n["err"], n["cls"] = list(o), 0, ""
+                if not (op == "f.feed" and acc[2]):
+                    acc[0] += bytes(e["data"])
+                    acc[1] += bytes(o)
+            except Exception as ex:                                # noqa
+                n["out"], n["err"], n["cls"] = [], 1, type(ex).__name__
+                if op == "f.feed" and not (e["fin"] == 0 and e["data"] == [120] and acc[2] == 2):
+                    acc[2] = 1
+            if op == "f.feed" and e["fin"] and not n["err"]:
+                acc[2] = 2                                           # finished; later feeds are the after-finish probes
+        elif op == "m.end":
+            n["stream"], n["outs"] = list(acc[0]), list(acc[1])
+        elif op == "f.end":
+            n["outs"], n["err"] = list(acc[1]), 1 if acc[2] == 1 else 0
+        elif op == "m.ossl":
+            n["ossl"] = list(ossl(e["cipher"], bytes(cfg["key"]), None if cfg["mode"] == "ecb" else bytes(cfg["iv"]), bytes(e["stream"]), decrypt=(e["dir"] == "dec")))
+        elif op == "ad.call":
+            k = (e.get("hist", -1), e.get("obj", 0)) if e.get("hist", -1) >= 0 else ("x", len(out))
+            if k not in objs:
+                objs[k] = bc.create_AES128(bytes(e["key"]), bytes(e["iv"]) if e["iv"] else None)
+            try:
+                n["out"], n["err"], n["cls"] = list(getattr(objs[k], e["fn"])(bytes(e["data"]))), 0, ""
+            except Exception as ex:                                # noqa
+                n["out"], n["err"], n["cls"] = [], 1, type(ex).__name__
+        elif op == "ad.rt":
+            o1 = bc.create_AES128(bytes(e["key"]), bytes(e["iv"]) if e["iv"] else None)
+            o2 = o1 if e.get("shared") else bc.create_AES128(bytes(e["key"]), bytes(e["iv"]) if e["iv"] else None)
+            n["enc"] = list(o1.encrypt(bytes(e["data"])))
+            n["dec"] = list(o2.decrypt(bytes(n["enc"])))
+        elif op == "pad":
+            n["out"] = list(bc.pad(bytes(e["data"])))
+        elif op == "unreg":
+            saved = type(bc.create_AES128(bytes(16)))
+            try:
+                bc.register_AES128(bc.AES128)
+                try:
+                    getattr(bc.create_AES128(bytes(16)), e["what"])(bytes(16))
+                    n["cls"] = "no-exception"
+                except Exception as ex:                            # noqa
+                    n["cls"] = type(ex).__name__
+            finally:
+                bc.register_AES128(saved)
+        out.append(n)
+    return out
+
+
+def replay(path):
+    """bin/check C16 --replay <file>: re-executes the recorded calls on /repo and lets TLC judge them again.
+    Exit 0 = accepted now, 1 = still rejected."""
+    d = json.load(open(path))
+    data = d["data"]
+    evs = _redo(data.get("group") or [data["event"]])
+    with Scratch("c16r") as wd:
+        rej, _ = tlc.validate_trace(os.path.join(SPEC, data["trace_spec"] + ".tla"), TRIV, evs, wd, shards=1, by="grp" if "grp" in evs[0] else "tid")
+    for x in rej:
+        print("  rejected again: tid %s clause %s" % (x[1], x[2]))
+    if rej:
+        print("VIOLATION property=C16 replay=%s" % path)
+        return 1
+    print("replay %s: accepted by %s (%d events re-executed)" % (path, data["trace_spec"], len(evs)))
+    return 0
